@@ -135,7 +135,10 @@ Definition q_step (cfg : qconfig) (c : cluster) (op : qop) : cluster * qres :=
       let '(n', ok) := RepairFollower cfg n leader follower from through in
       (Cluster n' (cl_owners c), RBool ok)
   | OCheckpoint node hw =>
-      (Cluster (net_set n node (storeCheckpoint (net_rep n node) hw)) (cl_owners c), RBool true)
+      (* the reactor checkpoints only what its owner has acknowledged *)
+      let o := get_owner (cl_owners c) node in
+      let w := N.min hw (if qc_ready o then qc_hw o else 0) in
+      (Cluster (net_set n node (storeCheckpoint (net_rep n node) w)) (cl_owners c), RBool true)
   end.
 
 (* ---- the case record ------------------------------------------------------------------------ *)
